@@ -44,6 +44,10 @@ func obs(c Case, src string) (jsrun.Resp, error) {
 	return jsrun.Default.Run(jsrun.Req{Goal: c.Goal, Src: src, Probes: c.Probes, Predef: c.Predef})
 }
 
+func obsPatient(c Case, src string) (jsrun.Resp, error) {
+	return jsrun.Default.RunPatient(jsrun.Req{Goal: c.Goal, Src: src, Probes: c.Probes, Predef: c.Predef})
+}
+
 func stringContents(toks []jslex.Token) map[string]bool {
 	out := map[string]bool{}
 	for _, t := range toks {
@@ -98,7 +102,7 @@ func check(c Case) (res result, err error) {
 		} else {
 			res.out = text
 		}
-		o, e := obs(c, text)
+		o, e := obsPatient(c, text)
 		if e != nil {
 			return res, fmt.Errorf("HARNESS: %v", e)
 		}
